@@ -7,8 +7,8 @@
    not yet covered by a theorem are decided by the implementation <-> specification <->
    hardware differential run only (listed as unproved_forms in the evidence). *)
 From Coq Require Import ZArith Bool List.
-From AxV Require Import Bits Outcome Codes Iced State Rt Mem Trace Exec ExecP FrameTac FrameP RegFile RegsP ByteStore ISA CodeSem IsaP CfP StackP.
-From AxG Require Import Flags Regs Operand Helpers Dispatch Frame I_push I_pop.
+From AxV Require Import Bits Outcome Codes Iced State Rt Mem Trace Exec ExecP FrameTac FrameP RegFile RegsP ByteStore ISA CodeSem IsaP ControlFlow TraceP CfP StackP CallRetP.
+From AxG Require Import Flags Regs Operand Helpers Dispatch Frame I_push I_pop I_call I_ret.
 Local Open Scope Z_scope.
 
 (* The emulator's stack discipline, stated exactly.  [emu_push] stores at the OLD stack pointer and
@@ -48,12 +48,63 @@ Theorem C04_pop_r64 : forall c i s,
   end.
 Proof. exact pop_r64_exact. Qed.
 
-(* CALL / RET: the return-address push and pop and the call-stack / trace bookkeeping are proved
-   in C18 (CfP.call_tail, CfP.ret_tail); the 16-bit and immediate PUSH forms are decided by the
-   differential run and the golden known-finding witnesses only. *)
+(* CALL rel32, exactly: the return address (RIP, already past the instruction) goes to the OLD
+   stack pointer, RSP decreases by 8 (wrapping), RIP becomes the target, one call event is logged
+   and the target pushed on the call stack; a refused store fails the step and changes nothing.
+   [same_data] = registers, vector registers, flags, segment bases and memory are equal. *)
+Theorem C04_call_rel32 : forall c i s,
+  i_code i = C_Call_rel32_64 -> i_op0_kind i = OK_NearBranch64 -> 0 <= i_near_branch64 i < 2 ^ 64 ->
+  Inv (mem s) -> pre i s ->
+  match emu_push 8 (regs s RIP) s with
+  | Some s1 => exists s', instr_call_rel32_64 c i s = (Ok tt, s') /\
+                          same_data s' (set_rip s1 (i_near_branch64 i)) /\ recorded i s s' TCall
+  | None => exists e, instr_call_rel32_64 c i s = (Err e, s)
+  end.
+Proof. exact call_rel32_exact. Qed.
+
+(* ... which is the CPU's CALL run on the state with RSP+8, RSP moved back by 8 afterwards *)
+Theorem C04_call_rel32_is_conjugated_hardware : forall c i s,
+  i_code i = C_Call_rel32_64 -> i_op0_kind i = OK_NearBranch64 -> 0 <= i_near_branch64 i < 2 ^ 64 ->
+  canonical (i_near_branch64 i) = true -> wf_regs s -> Inv (mem s) -> pre i s ->
+  match isa_exec SCallRel i (shift 8 s) with
+  | IDone sh _ => exists s', instr_call_rel32_64 c i s = (Ok tt, s') /\ same_data s' (shift (-8) sh) /\ recorded i s s' TCall
+  | IFault FStack => exists e, instr_call_rel32_64 c i s = (Err e, s)
+  | IFault _ => False
+  end.
+Proof. exact call_rel32_is_conjugated_hardware. Qed.
+
+(* RET, exactly: the return address is loaded from RSP+8 (the cell CALL wrote), RSP becomes RSP+8,
+   RIP the loaded value; one return event is logged and the call stack popped; a return whose new
+   stack pointer is the initial stack top ends the program; a refused load fails the step and
+   changes nothing. *)
+Theorem C04_ret : forall c i s,
+  i_code i = C_Retnq -> Inv (mem s) -> pre i s ->
+  if (regs s RSP + 8) mod 2 ^ 64 =? stack_top s then instr_retnq c i s = (Err EFinish, s)
+  else match emu_pop 8 s with
+       | Some (v, s1) => exists s', instr_retnq c i s = (Ok tt, s') /\
+                                    same_data s' (set_rip s1 v) /\ recorded i s s' TReturn
+       | None => exists e, instr_retnq c i s = (Err e, s)
+       end.
+Proof. exact ret_exact. Qed.
+
+Theorem C04_ret_is_conjugated_hardware : forall c i s,
+  i_code i = C_Retnq -> wf_regs s -> Inv (mem s) -> pre i s ->
+  ((regs s RSP + 8) mod 2 ^ 64 =? stack_top s) = false ->
+  match pop_val 8 (shift 8 s) with
+  | Some (t, sh1) => exists s', instr_retnq c i s = (Ok tt, s') /\ same_data s' (shift (-8) (set_rip sh1 t)) /\ recorded i s s' TReturn
+  | None => exists e, instr_retnq c i s = (Err e, s)
+  end.
+Proof. exact ret_is_conjugated_hardware. Qed.
+
+(* the 16-bit and immediate PUSH forms, POP r/m and CALL r/m64 are decided by the differential run
+   and the golden known-finding witnesses only. *)
 
 Print Assumptions cond_matches_sdm.
 Print Assumptions C04_push_is_hardware_conjugated.
 Print Assumptions C04_pop_is_hardware_conjugated.
 Print Assumptions C04_push_r64.
 Print Assumptions C04_pop_r64.
+Print Assumptions C04_call_rel32.
+Print Assumptions C04_call_rel32_is_conjugated_hardware.
+Print Assumptions C04_ret.
+Print Assumptions C04_ret_is_conjugated_hardware.
